@@ -238,7 +238,7 @@ var fieldRules = []fieldRule{
 
 func checkC12(c *Ctx) {
 	r := c.R
-	r.Explain = "Decides structural clauses of C12 on the generators' own code. R12a: every rule function (exported Validate* of internal/annotations, GetUnwrapField, HasConflictingEnumAnnotations, httpgen.ValidateService, the MarshalJSON-conflict checks) is called on EVERY success path from each Go plugin's Generate() (go/cfg must-pass through the chain of callers; loops over descriptor collections are transparent) — in particular not after the 'file has no services' return and not under a 'has annotated messages' test. R12b: each validation walker iterates messages and recurses into nested messages. R12c: at every call site of a function that leads to a rule, the failure arm returns a non-nil error (accepted idioms enumerated); swallow sites are reported. R12d: each field-level rule is evaluated over the finite field-shape domain (90 shapes) by walking the validator's syntax tree with the shape's descriptor answers fixed, for every combination of its remaining (annotation) decisions, and compared with the documented table in both directions (refuses what it must, never refuses a valid placement or an unannotated field). R12e: plugins that implement no rule (ts-client, openapiv3) contain no error-constructing site; ts-server only in its two documented checks; each Go plugin's main returns Generate()'s error to protogen (which then answers with error and no files). Not decided: message-level rule predicates (collisions, unwrap counts) beyond wiring; wording of messages."
+	r.Explain = "Decides structural clauses of C12 on the generators' own code. R12a: every rule function (exported Validate* of internal/annotations, GetUnwrapField, HasConflictingEnumAnnotations, httpgen.ValidateService, the MarshalJSON-conflict checks) is called on EVERY success path from each Go plugin's Generate() (go/cfg must-pass through the chain of callers; loops over descriptor collections are transparent) — in particular not after the 'file has no services' return and not under a 'has annotated messages' test. R12b: each validation walker iterates messages and recurses into nested messages. R12c: at every call site of a function that leads to a rule, the failure arm returns a non-nil error (accepted idioms enumerated); swallow sites are reported. R12d: each field-level rule is evaluated over the finite field-shape domain (90 shapes) by walking the validator's syntax tree with the shape's descriptor answers fixed, for every combination of its remaining (annotation) decisions, and compared with the documented table in both directions (refuses what it must, never refuses a valid placement or an unannotated field). R12e: plugins that implement no rule (ts-client, openapiv3) contain no error-constructing site; ts-server only in its two documented checks; each Go plugin's main returns Generate()'s error to protogen (which then answers with error and no files). R12g: message-level validators (HTTP config rules, discriminator and flatten collisions, flattened-oneof rules, unwrap placement, the TS server's two checks) are interpreted on concrete rule instances — small hand-built descriptor values whose descriptor methods and annotation accessors are answered from the value, with maps, slices and errors modelled as values — and must give the documented verdict, offending and valid instances alike. Not decided: message-level predicates outside the listed instances; wording of messages."
 	r.Trusted = []string{"protogen.Options.Run: a non-nil error from the callback becomes CodeGeneratorResponse.error and no files (compiler/protogen/protogen.go run())",
 		"protogen sets Field.Oneof for members of real and synthetic oneofs; Field.Message for message/group kinds incl. map entries"}
 	r.Rule("R12a", "every rule function is called on every success path from each Go plugin's Generate()", 18)
@@ -247,6 +247,7 @@ func checkC12(c *Ctx) {
 	r.Rule("R12d", "field-level rule predicates equal the documented table over the field-shape domain, both directions (one obligation per rule x cardinality/presence class x verdict, listing the kinds)", 30)
 	r.Rule("R12e", "who-may-refuse: no error-constructing site outside the documented rule functions; mains hand Generate()'s error to protogen", 6)
 
+	c12Scenarios(c)
 	memo := map[[2]*types.Func]bool{}
 	annPk := c.P.Pkg("internal/annotations")
 	if annPk == nil {
